@@ -81,6 +81,7 @@ var smallInputs = map[string][]string{
 		`{`, `[1,`, ``, `{"a"`, `tru`,
 	},
 	"image/svg+xml": {
+		`<svg xmlns="http://www.w3.org/2000/svg"><style>b[title="&#60;x"]{fill:red}a:after{content:"&#38;"}</style><rect class="b"/></svg>`,
 		`<?xml version="1.0" encoding="UTF-8"?><!DOCTYPE svg PUBLIC "-//W3C//DTD SVG 1.1//EN" "http://www.w3.org/Graphics/SVG/1.1/DTD/svg11.dtd"><svg xmlns="http://www.w3.org/2000/svg" version="1.1" width="100px" height="100px" viewBox="0 0 100 100"><!-- c --><g fill="#ff0000"><path d="M 10,10 L 20,20 L 30,10 z M 0 0 c 1 1 2 2 3 3"/><rect x="0" y="0" width="10" height="10" style="fill: red; stroke: #000000"/></g><style type="text/css"><![CDATA[ a { color : red } ]]></style><text> a  b </text></svg>`,
 		`<svg><circle cx="5" cy="5" r="4.000"/><metadata>x</metadata><defs></defs><use href="#a"/></svg>`,
 		`<svg xmlns="http://www.w3.org/2000/svg"><path d="M0 0L1 1"/><text>t</text></svg><?php echo 1 ?><!-- trailing --><![CDATA[ x ]]>`,
